@@ -147,6 +147,8 @@ pub struct Stats {
     pub violations: Vec<Value>,
     pub inconclusive: Vec<String>,
     pub exhaustive: Option<bool>,
+    /// named 256-bit sets (e.g. opcodes executed), OR-merged across workers
+    pub bitsets: BTreeMap<String, [u64; 4]>,
     frozen: bool,
 }
 
@@ -176,6 +178,14 @@ impl Stats {
             self.samples.push(f());
         }
     }
+    pub fn or_bits(&mut self, name: &str, bits: &[u64; 4]) {
+        if !self.frozen {
+            let e = self.bitsets.entry(name.to_string()).or_insert([0; 4]);
+            for k in 0..4 {
+                e[k] |= bits[k];
+            }
+        }
+    }
     pub fn is_frozen(&self) -> bool {
         self.frozen
     }
@@ -193,6 +203,7 @@ impl Stats {
             "violations": self.violations,
             "inconclusive": self.inconclusive,
             "exhaustive": self.exhaustive,
+            "bitsets": self.bitsets.iter().map(|(k, v)| (k.clone(), v.iter().map(|x| x.to_string()).collect::<Vec<_>>())).collect::<BTreeMap<_, _>>(),
         })
     }
 
@@ -244,6 +255,14 @@ impl Stats {
         }
         if let Some(a) = v["inconclusive"].as_array() {
             self.inconclusive.extend(a.iter().filter_map(|s| s.as_str().map(String::from)));
+        }
+        if let Some(m) = v["bitsets"].as_object() {
+            for (k, arr) in m {
+                let e = self.bitsets.entry(k.clone()).or_insert([0; 4]);
+                for i in 0..4 {
+                    e[i] |= arr[i].as_str().and_then(|s| s.parse::<u64>().ok()).unwrap_or(0);
+                }
+            }
         }
         if let Some(b) = v["exhaustive"].as_bool() {
             self.exhaustive = Some(self.exhaustive.unwrap_or(true) && b);
@@ -469,6 +488,9 @@ pub fn write_evidence(info: &PropInfo, tier: Tier, seed: u64, stats: &Stats, wal
     }
     for (k, v) in &stats.extra {
         cov.insert(k.clone(), v.clone());
+    }
+    for (k, v) in &stats.bitsets {
+        cov.insert(format!("distinct_{k}"), json!(v.iter().map(|x| x.count_ones() as u64).sum::<u64>()));
     }
     let ev = json!({
         "property_id": info.id,
